@@ -1,9 +1,18 @@
 // C17 correspondence + search harness: bitstream primitives of /repo against the Coq model.
 #include "common.h"
+#include <array>
 #include "draco/core/encoder_buffer.h"
 #include "draco/core/decoder_buffer.h"
 #include "draco/core/varint_encoding.h"
 #include "draco/core/varint_decoding.h"
+#include "draco/compression/bit_coders/rans_bit_encoder.h"
+#include "draco/compression/bit_coders/rans_bit_decoder.h"
+#include "draco/compression/bit_coders/adaptive_rans_bit_encoder.h"
+#include "draco/compression/bit_coders/adaptive_rans_bit_decoder.h"
+#include "draco/compression/bit_coders/direct_bit_encoder.h"
+#include "draco/compression/bit_coders/direct_bit_decoder.h"
+#include "draco/compression/bit_coders/folded_integer_bit_encoder.h"
+#include "draco/compression/bit_coders/folded_integer_bit_decoder.h"
 using namespace draco;
 
 template <typename T> struct W { static constexpr int bits = sizeof(T) * 8; };
@@ -64,6 +73,234 @@ static std::vector<uint8_t> rand_varint_bytes(Rng &r) {
   return v;
 }
 
+
+// ---------------------------------------------------------------- bit sequences in Encoder/DecoderBuffer
+struct Item { bool block; std::vector<uint8_t> bytes; int64_t req; bool ws; std::vector<std::pair<int, uint32_t>> puts; };
+static std::string items_text(const std::vector<Item> &its) {
+  std::string t;
+  for (size_t i = 0; i < its.size(); i++) {
+    if (i) t += ";";
+    const Item &it = its[i];
+    if (!it.block) { t += "B:" + hex(it.bytes.data(), it.bytes.size()); continue; }
+    t += "K:" + S(it.req) + ":" + (it.ws ? "1" : "0") + ":";
+    if (it.puts.empty()) t += "-";
+    for (size_t k = 0; k < it.puts.size(); k++) { if (k) t += ","; t += S(it.puts[k].first) + "/" + U(it.puts[k].second); }
+  }
+  return its.empty() ? "-" : t;
+}
+static std::string shape_text(const std::vector<Item> &its) {
+  std::string t;
+  for (size_t i = 0; i < its.size(); i++) {
+    if (i) t += ";";
+    const Item &it = its[i];
+    if (!it.block) { t += "B:" + S(it.bytes.size()); continue; }
+    t += std::string("K:") + (it.ws ? "1" : "0") + ":";
+    if (it.puts.empty()) t += "-";
+    for (size_t k = 0; k < it.puts.size(); k++) { if (k) t += ","; t += S(it.puts[k].first); }
+  }
+  return its.empty() ? "-" : t;
+}
+static std::vector<Item> gen_items(Rng &r) {
+  std::vector<Item> its; int n = (int)r.below(6);
+  for (int i = 0; i < n; i++) {
+    Item it; it.block = r.chance(60);
+    if (!it.block) { int len = (int)r.below(7); for (int k = 0; k < len; k++) it.bytes.push_back((uint8_t)r.next()); }
+    else {
+      it.ws = r.chance(50); int np = (int)r.below(9); int64_t total = 0;
+      for (int k = 0; k < np; k++) { int nb = r.chance(15) ? 32 : (r.chance(10) ? 0 : (int)r.range(1, 31)); it.puts.push_back({nb, (uint32_t)r.biased(32)}); total += nb; }
+      // required_bits: exactly enough, or generous (the block must fit: writing more is out of bounds in the C++)
+      it.req = total == 0 ? (int64_t)r.range(1, 40) : (r.chance(50) ? total : total + (int64_t)r.below(70));
+      if (r.chance(3)) it.req = 1 + (int64_t)r.below(200000) + total;
+    }
+    its.push_back(it);
+  }
+  return its;
+}
+// encodes the items with the real EncoderBuffer; false if any call reported failure
+static bool encode_items(const std::vector<Item> &its, EncoderBuffer &eb) {
+  for (const Item &it : its) {
+    if (!it.block) { if (!eb.Encode(it.bytes.data(), it.bytes.size())) return false; continue; }
+    if (!eb.StartBitEncoding(it.req, it.ws)) return false;
+    for (auto &p : it.puts) if (!eb.EncodeLeastSignificantBits32(p.first, p.second)) return false;
+    eb.EndBitEncoding();
+  }
+  return true;
+}
+// decodes with the real DecoderBuffer following the shape; result text
+static std::string decode_items(const std::vector<Item> &its, const std::vector<uint8_t> &buf, int ver_major, int ver_minor) {
+  DecoderBuffer db; db.Init((const char *)buf.data(), buf.size(), (uint16_t)((ver_major << 8) | ver_minor));
+  std::string t = "ok ";
+  for (size_t i = 0; i < its.size(); i++) {
+    const Item &it = its[i];
+    if (i) t += ";";
+    if (!it.block) {
+      std::vector<uint8_t> out(it.bytes.size() + 1);
+      if (!db.Decode(out.data(), it.bytes.size())) return "fail";
+      t += "B:" + hex(out.data(), it.bytes.size()); continue;
+    }
+    uint64_t sz = 0;
+    if (!db.StartBitDecoding(it.ws, &sz)) return "fail";
+    t += "K:" + (it.ws ? U(sz) : std::string("n")) + ":";
+    if (it.puts.empty()) t += "-";
+    for (size_t k = 0; k < it.puts.size(); k++) {
+      uint32_t v = 0; if (!db.DecodeLeastSignificantBits32(it.puts[k].first, &v)) return "fail";
+      if (k) t += ","; t += U(v);
+    }
+    db.EndBitDecoding();
+  }
+  if (its.empty()) t += "-";
+  return t + " " + S(db.remaining_size());
+}
+static void bitseq_cases(Out &o, Rng &r, int n) {
+  for (int i = 0; i < n; i++) {
+    std::vector<Item> its = gen_items(r);
+    EncoderBuffer eb; bool ok = encode_items(its, eb);
+    std::string it = items_text(its);
+    o.c("bs " + it, ok ? hex(eb.data(), eb.size()) : "fail");
+    if (!ok) { o.fail("EncoderBuffer call failed on a well-formed item list: " + it); continue; }
+    std::vector<uint8_t> buf(eb.data(), eb.data() + eb.size());
+    int extra = (int)r.below(4); for (int k = 0; k < extra; k++) buf.push_back((uint8_t)r.next());
+    std::string res = decode_items(its, buf, 2, 2);
+    o.c("dbs 514 " + shape_text(its) + " " + hex(buf.data(), buf.size()), res);
+    // search: values and exact consumption
+    std::string want = "ok ";
+    for (size_t q = 0; q < its.size(); q++) {
+      if (q) want += ";";
+      if (!its[q].block) { want += "B:" + hex(its[q].bytes.data(), its[q].bytes.size()); continue; }
+      int64_t total = 0; for (auto &p : its[q].puts) total += p.first;
+      want += "K:" + (its[q].ws ? U((uint64_t)((total + 7) / 8)) : std::string("n")) + ":";
+      if (its[q].puts.empty()) want += "-";
+      for (size_t k = 0; k < its[q].puts.size(); k++) { if (k) want += ","; uint32_t v = its[q].puts[k].second; int nb = its[q].puts[k].first; want += U(nb == 32 ? v : (nb == 0 ? 0 : (v & ((1u << nb) - 1)))); }
+    }
+    if (its.empty()) want += "-";
+    want += " " + S(extra);
+    if (res != want) o.fail("bit/byte item round trip: " + it + " got [" + res + "] want [" + want + "]");
+    // decoding arbitrary bytes with the same shape, both size formats (version < 2.2 reads a fixed uint64 size)
+    std::vector<uint8_t> junk; int jl = (int)r.below(24); for (int k = 0; k < jl; k++) junk.push_back(r.chance(30) ? (uint8_t)r.below(4) : (uint8_t)r.next());
+    o.c("dbs 513 " + shape_text(its) + " " + hex(junk.data(), junk.size()), decode_items(its, junk, 2, 1));
+    o.c("dbs 514 " + shape_text(its) + " " + hex(junk.data(), junk.size()), decode_items(its, junk, 2, 2));
+  }
+}
+
+// ---------------------------------------------------------------- bit coders
+struct Op { bool lsb; int n; uint32_t v; };
+static std::string ops_text(const std::vector<Op> &ops) {
+  if (ops.empty()) return "-";
+  std::string t;
+  for (size_t i = 0; i < ops.size(); i++) { if (i) t += ","; t += ops[i].lsb ? ("l" + S(ops[i].n) + "/" + U(ops[i].v)) : (ops[i].v ? "b1" : "b0"); }
+  return t;
+}
+static std::string rops_text(const std::vector<Op> &ops) {
+  if (ops.empty()) return "-";
+  std::string t;
+  for (size_t i = 0; i < ops.size(); i++) { if (i) t += ","; t += ops[i].lsb ? ("l" + S(ops[i].n)) : "b"; }
+  return t;
+}
+static std::vector<Op> gen_ops(Rng &r, int maxops, bool only_bits) {
+  std::vector<Op> ops; int n = (int)r.below(maxops + 1);
+  int bias = (int)r.below(5);   // 0: all zero, 1: all one, 2: fair, 3: skewed to 0, 4: skewed to 1
+  auto bit = [&]() -> uint32_t { switch (bias) { case 0: return 0; case 1: return 1; case 2: return r.next() & 1; case 3: return r.chance(7); default: return !r.chance(7); } };
+  for (int i = 0; i < n; i++) {
+    Op op; op.lsb = !only_bits && r.chance(35);
+    if (op.lsb) { op.n = r.chance(15) ? 32 : (int)r.range(1, 31); uint32_t v = 0; for (int k = 0; k < 32; k++) v |= bit() << k; if (r.chance(20)) v = (uint32_t)r.biased(32); op.v = v; }
+    else { op.n = 1; op.v = bit(); }
+    ops.push_back(op);
+  }
+  return ops;
+}
+static uint32_t low(uint32_t v, int n) { return n >= 32 ? v : (v & ((1u << n) - 1)); }
+
+template <class Enc> static void run_enc(Enc &e, const std::vector<Op> &ops, EncoderBuffer &eb) {
+  e.StartEncoding();
+  for (auto &op : ops) { if (op.lsb) e.EncodeLeastSignificantBits32(op.n, op.v); else e.EncodeBit(op.v != 0); }
+  e.EndEncoding(&eb);
+}
+// decode following rops; `extra` additional single bits are read past the written data
+template <class Dec> static std::string run_dec(Dec &d, const std::vector<Op> &ops, const std::vector<uint8_t> &buf, int ver, int extra) {
+  DecoderBuffer db; db.Init((const char *)buf.data(), buf.size(), (uint16_t)ver);
+  if (!d.StartDecoding(&db)) return "fail";
+  std::string t = "ok ";
+  for (size_t i = 0; i < ops.size(); i++) {
+    if (i) t += ",";
+    if (ops[i].lsb) { uint32_t v = 0; d.DecodeLeastSignificantBits32(ops[i].n, &v); t += U(v); }
+    else t += d.DecodeNextBit() ? "1" : "0";
+  }
+  if (ops.empty()) t += "-";
+  t += " x";
+  for (int i = 0; i < extra; i++) t += d.DecodeNextBit() ? "1" : "0";
+  d.EndDecoding();
+  return t + " " + S(db.remaining_size());
+}
+// DirectBitDecoder::DecodeLeastSignificantBits32 returns bool
+static std::string run_dec_direct(const std::vector<Op> &ops, const std::vector<uint8_t> &buf, int extra) {
+  DirectBitDecoder d; DecoderBuffer db; db.Init((const char *)buf.data(), buf.size(), 0x0202);
+  if (!d.StartDecoding(&db)) return "fail";
+  std::string t = "ok ";
+  for (size_t i = 0; i < ops.size(); i++) {
+    if (i) t += ",";
+    if (ops[i].lsb) { uint32_t v = 0; if (!d.DecodeLeastSignificantBits32(ops[i].n, &v)) { t += "F"; break; } t += U(v); }
+    else t += d.DecodeNextBit() ? "1" : "0";
+  }
+  if (ops.empty()) t += "-";
+  t += " x";
+  for (int i = 0; i < extra; i++) t += d.DecodeNextBit() ? "1" : "0";
+  return t + " " + S(db.remaining_size());
+}
+static std::string want_text(const std::vector<Op> &ops, int extra_zero, int rem) {
+  std::string t = "ok ";
+  for (size_t i = 0; i < ops.size(); i++) { if (i) t += ","; t += ops[i].lsb ? U(low(ops[i].v, ops[i].n)) : (ops[i].v ? "1" : "0"); }
+  if (ops.empty()) t += "-";
+  t += " x"; (void)extra_zero;
+  return t + " " + S(rem);
+}
+static std::vector<uint8_t> corrupt(Rng &r, std::vector<uint8_t> b) {
+  switch (r.below(4)) {
+    case 0: if (!b.empty()) b.resize(r.below(b.size())); break;
+    case 1: if (!b.empty()) b[r.below(b.size())] ^= (uint8_t)(1u << r.below(8)); break;
+    case 2: if (!b.empty()) b[r.below(b.size() < 6 ? b.size() : 6)] = (uint8_t)r.next(); break;
+    default: { b.clear(); int n = (int)r.below(20); for (int i = 0; i < n; i++) b.push_back((uint8_t)r.next()); }
+  }
+  return b;
+}
+static void coder_cases(Out &o, Rng &r, int n, int maxops) {
+  for (int i = 0; i < n; i++) {
+    int which = (int)r.below(4);
+    std::vector<Op> ops = gen_ops(r, maxops, which == 1 && r.chance(50));
+    EncoderBuffer eb; std::string name;
+    switch (which) {
+      case 0: { RAnsBitEncoder e; run_enc(e, ops, eb); name = "ransbit"; break; }
+      case 1: { AdaptiveRAnsBitEncoder e; run_enc(e, ops, eb); name = "adaptive"; break; }
+      case 2: { DirectBitEncoder e; run_enc(e, ops, eb); name = "direct"; break; }
+      default: { FoldedBit32Encoder<RAnsBitEncoder> e; run_enc(e, ops, eb); name = "folded"; break; }
+    }
+    o.c(name + " " + ops_text(ops), hex(eb.data(), eb.size()));
+    std::vector<uint8_t> buf(eb.data(), eb.data() + eb.size());
+    int junk = (int)r.below(3); for (int k = 0; k < junk; k++) buf.push_back((uint8_t)r.next());
+    // valid stream: values + exact consumption (search), and decode correspondence incl. reading past the end
+    int extra = r.chance(30) ? (int)r.below(40) : 0;
+    std::string res;
+    switch (which) {
+      case 0: { RAnsBitDecoder d; res = run_dec(d, ops, buf, 0x0202, 0); break; }
+      case 1: { AdaptiveRAnsBitDecoder d; res = run_dec(d, ops, buf, 0x0202, 0); break; }
+      case 2: res = run_dec_direct(ops, buf, 0); break;
+      default: { FoldedBit32Decoder<RAnsBitDecoder> d; res = run_dec(d, ops, buf, 0x0202, 0); break; }
+    }
+    if (res != want_text(ops, 0, junk)) o.fail(name + " round trip: " + ops_text(ops) + " got [" + res + "]");
+    for (int pass = 0; pass < 2; pass++) {
+      std::vector<uint8_t> b2 = pass == 0 ? buf : corrupt(r, buf);
+      int ver = (pass == 1 && which != 1 && which != 2 && r.chance(30)) ? 0x0201 : 0x0202;
+      std::string rr;
+      switch (which) {
+        case 0: { RAnsBitDecoder d; rr = run_dec(d, ops, b2, ver, extra); break; }
+        case 1: { AdaptiveRAnsBitDecoder d; rr = run_dec(d, ops, b2, ver, extra); break; }
+        case 2: rr = run_dec_direct(ops, b2, extra); break;
+        default: { FoldedBit32Decoder<RAnsBitDecoder> d; rr = run_dec(d, ops, b2, ver, extra); break; }
+      }
+      o.c("d" + name + " " + S(ver) + " " + rops_text(ops) + " " + S(extra) + " " + hex(b2.data(), b2.size()), rr);
+    }
+  }
+}
+
 int main(int argc, char **argv) {
   if (argc < 4) { fprintf(stderr, "usage: h_C17 quick|thorough seed out\n"); return 2; }
   bool thorough = !strcmp(argv[1], "thorough");
@@ -98,6 +335,9 @@ int main(int argc, char **argv) {
     }
     if (i % 5 == 0) { le_dec_case<uint32_t>(o, bs); le_dec_case<uint64_t>(o, bs); le_dec_case<uint16_t>(o, bs); }
   }
+  bitseq_cases(o, r, thorough ? 40000 : 2500);
+  coder_cases(o, r, thorough ? 30000 : 2500, 60);
+  coder_cases(o, r, thorough ? 300 : 30, 6000);
   fprintf(stderr, "h_C17: %ld cases, %ld direct failures\n", o.cases, o.fails);
   return 0;
 }
